@@ -17,17 +17,6 @@ Definition I_cap (s : state) : Prop :=
   (maxr s = 0 -> loaded s = [] /\ cnt inpl (thr s) = 0) /\
   (0 < maxr s -> length (loaded s) + cnt inpl (thr s) <= maxr s).
 
-Lemma cnt_mono {A} (f g : A -> nat) l : (forall x, f x <= g x) -> cnt f l <= cnt g l.
-Proof. intros Hfg. induction l as [|h tl IH]; simpl; auto. specialize (Hfg h). lia. Qed.
-
-Lemma cnt_le_at {A} (f g : A -> nat) l t p :
-  (forall x, f x <= g x) -> nth_error l t = Some p -> cnt f l + g p <= cnt g l + f p.
-Proof.
-  intros Hfg. revert t; induction l as [|h tl IH]; intros [|t] E; simpl in *; try discriminate.
-  - inv E. pose proof (cnt_mono f g tl Hfg). lia.
-  - specialize (IH _ E). specialize (Hfg h). lia.
-Qed.
-
 Lemma inpl_isP p : inpl p <= isP p.
 Proof. unfold inpl. induction p; simpl; auto. Qed.
 
